@@ -3,6 +3,7 @@ package ocppj
 import (
 	"errors"
 	"fmt"
+	"sync"
 
 	"gopkg.in/go-playground/validator.v9"
 
@@ -24,6 +25,8 @@ type Client struct {
 	invalidMessageHook    func(err *ocpp.Error, rawMessage string, parsedFields []interface{}) *ocpp.Error
 	dispatcher            ClientDispatcher
 	RequestState          ClientState
+	// outcomeMutex orders the reports of request outcomes (response / error handlers, cancellations).
+	outcomeMutex sync.Mutex
 }
 
 // Creates a new Client endpoint.
@@ -113,7 +116,18 @@ func (c *Client) SetOnReconnectedHandler(handler func()) {
 
 // Registers the handler to be called on timeout.
 func (c *Client) SetOnRequestCanceled(handler func(requestId string, request ocpp.Request, err *ocpp.Error)) {
-	c.dispatcher.SetOnRequestCanceled(handler)
+	if handler == nil {
+		c.dispatcher.SetOnRequestCanceled(nil)
+		return
+	}
+	c.dispatcher.SetOnRequestCanceled(func(requestId string, request ocpp.Request, err *ocpp.Error) {
+		// Completing a request lets the dispatcher send the next one. If that fails at once, its cancellation must
+		// not be reported while the reader is still between the completion of the previous request and its
+		// response / error handler: outcomes are reported in the order of the requests.
+		c.outcomeMutex.Lock()
+		defer c.outcomeMutex.Unlock()
+		handler(requestId, request, err)
+	})
 }
 
 // Connects to the given serverURL and starts running the I/O loop for the underlying connection.
@@ -302,17 +316,21 @@ func (c *Client) ocppMessageHandler(data []byte) error {
 		case CALL_RESULT:
 			callResult := message.(*CallResult)
 			log.Debugf("handling incoming CALL RESULT [%s]", callResult.UniqueId)
+			c.outcomeMutex.Lock()
 			c.dispatcher.CompleteRequest(callResult.GetUniqueId()) // Remove current request from queue and send next one
 			if c.responseHandler != nil {
 				c.responseHandler(callResult.Payload, callResult.UniqueId)
 			}
+			c.outcomeMutex.Unlock()
 		case CALL_ERROR:
 			callError := message.(*CallError)
 			log.Debugf("handling incoming CALL ERROR [%s]", callError.UniqueId)
+			c.outcomeMutex.Lock()
 			c.dispatcher.CompleteRequest(callError.GetUniqueId()) // Remove current request from queue and send next one
 			if c.errorHandler != nil {
 				c.errorHandler(ocpp.NewError(callError.ErrorCode, callError.ErrorDescription, callError.UniqueId), callError.ErrorDetails)
 			}
+			c.outcomeMutex.Unlock()
 		}
 	}
 	return nil
